@@ -87,6 +87,34 @@ func scShutdown(r *Run) {
 
 	var mu sync.Mutex
 	var ends []*shutEnd
+	// foreignClass names the class of a "read returned bytes nobody wrote there" violation.  When the identifier of
+	// the tube has been used by more than one tube instance in this run, frames of the other instance can be the
+	// source: frames carry no instance number (the listed finding D20, which needs a protocol change; judged in
+	// its own right by C09).  Foreign bytes on a tube whose identifier was used once remain unlisted.
+	foreignClass := func(e *shutEnd) string {
+		mu.Lock()
+		defer mu.Unlock()
+		n := 0
+		for _, o := range ends {
+			if o.muxName == e.muxName && o.rel == e.rel && o.t.GetID() == e.t.GetID() {
+				n++
+			}
+		}
+		if n > 1 {
+			return "C16/read-returns-foreign-bytes/identifier-reused"
+		}
+		// (the peer may have opened its second instance while this side has not accepted it yet)
+		m := 0
+		for _, o := range ends {
+			if o.muxName != e.muxName && o.rel == e.rel && o.t.GetID() == e.t.GetID() {
+				m++
+			}
+		}
+		if m > 1 {
+			return "C16/read-returns-foreign-bytes/identifier-reused"
+		}
+		return "C16/read-returns-foreign-bytes"
+	}
 	stopCalled := map[string]time.Duration{}
 	var opWG sync.WaitGroup
 	muxOf := map[string]*tubes.Muxer{"A": mp.A, "B": mp.B}
@@ -161,7 +189,7 @@ func scShutdown(r *Run) {
 					r.Obligation(1)
 					if e.rel {
 						if bad := streamCheck(buf[:k], e.rsalt, e.roff); bad >= 0 {
-							r.Violate("C16/read-returns-foreign-bytes", "%s: Read returned bytes that were not written at stream offset %d", e.name, e.roff+int64(bad))
+							r.Violate(foreignClass(e), "%s: Read returned bytes that were not written at stream offset %d", e.name, e.roff+int64(bad))
 						}
 						e.roff += int64(k)
 					} else if errors.Is(err, transport.ErrBufOverflow) {
@@ -170,17 +198,17 @@ func scShutdown(r *Run) {
 							idx := binary.BigEndian.Uint64(buf[:8])
 							want := unrelMsg(e.rsalt, idx, 500)
 							if string(want[:k]) != string(buf[:k]) {
-								r.Violate("C16/read-returns-foreign-bytes", "%s: truncated unreliable Read returned bytes that are not the prefix of a written message", e.name)
+								r.Violate(foreignClass(e), "%s: truncated unreliable Read returned bytes that are not the prefix of a written message", e.name)
 							}
 						}
 					} else if k >= 8 {
 						idx := binary.BigEndian.Uint64(buf[:8])
 						want := unrelMsg(e.rsalt, idx, k-8)
 						if string(want) != string(buf[:k]) {
-							r.Violate("C16/read-returns-foreign-bytes", "%s: unreliable Read returned a message that was not written (index field %d, %d bytes)", e.name, idx, k)
+							r.Violate(foreignClass(e), "%s: unreliable Read returned a message that was not written (index field %d, %d bytes)", e.name, idx, k)
 						}
 					} else {
-						r.Violate("C16/read-returns-foreign-bytes", "%s: unreliable Read returned a %d-byte fragment", e.name, k)
+						r.Violate(foreignClass(e), "%s: unreliable Read returned a %d-byte fragment", e.name, k)
 					}
 				}
 				_ = err
@@ -245,7 +273,7 @@ func scShutdown(r *Run) {
 						k, err := e.t.Read(buf)
 						if k > 0 && e.rel {
 							if bad := streamCheck(buf[:k], e.rsalt, e.roff); bad >= 0 {
-								r.Violate("C16/read-returns-foreign-bytes", "%s: after closure, Read returned bytes that were not written at stream offset %d", e.name, e.roff+int64(bad))
+								r.Violate(foreignClass(e), "%s: after closure, Read returned bytes that were not written at stream offset %d", e.name, e.roff+int64(bad))
 							}
 							e.roff += int64(k)
 							drained += k
